@@ -169,7 +169,7 @@ def matrix_basis(ctx):
     consumer_positional = any(isinstance(n, ast.Call) and call_name(n) == "enumerate" and "canon2bin" in un(n) for n in ast.walk(asm))
     if not consumer_positional:
         raise Unknown("multivector.MultiVector.asmatrix", "does not index matrix_basis by canonical position", asm)
-    reads = {n.attr for n in ast.walk(mb) if isinstance(n, ast.Attribute) and un(n.value) == "self"}
+    reads = {n.attr for n in ast.walk(mb) if isinstance(n, ast.Attribute) and un(n.value) == mb.args.args[0].arg}
     producer = ctx.func("matrixreps.matrix_rep")
     pparams = {a.arg for a in producer.args.args}
     c = "algebra.Algebra.matrix_basis#basis-dependence"
